@@ -410,7 +410,7 @@ VARIANTS = [
     ("ownership_keeps_all", _D, "                if descendant in names:\n                    constraints.remove(r)\n                    break", "                if descendant in names and len(names) > 2:\n                    constraints.remove(r)\n                    break", "break", "R-OWNERSHIP"),
     ("util_type_typo", _D, "                msg = DpopMessage(\"UTIL\", util)\n                self.logger.info(\n                    f\"On UTIL from", "                msg = DpopMessage(\"UTILS\", util)\n                self.logger.info(\n                    f\"On UTIL from", "break", "R-"),
     ("join_fast_path_unordered", _R, "    dims = u1.dimensions[:]\n    for d2 in u2.dimensions:", "    if isinstance(u1, NAryMatrixRelation) and isinstance(u2, NAryMatrixRelation) and set(u1.scope_names) == set(u2.scope_names):\n        return NAryMatrixRelation(u1.dimensions, u1._m + u2._m, name='joined_utils')\n    dims = u1.dimensions[:]\n    for d2 in u2.dimensions:", "break", "R-ALIGN"),
-    ("isolated_rebuilds_joined", _D, "                for r in self._constraints:\n                    self._joined_utils = join(self._joined_utils, r)\n\n                values, current_cost = find_arg_optimal(", "                self._joined_utils = functools.reduce(join, self._constraints)\n\n                values, current_cost = find_arg_optimal(", "break", "R-UTIL"),
+    ("isolated_rebuilds_joined", _D, "            if self._constraints:\n                for r in self._constraints:\n                    self._joined_utils = join(self._joined_utils, r)\n\n                values, current_cost = find_arg_optimal(", "            if self._constraints:\n                self._joined_utils = functools.reduce(join, self._constraints)\n\n                values, current_cost = find_arg_optimal(", "break", "R-UTIL"),
     ("tie_by_tolerance", _R, "        elif current_rel_val == best_rel_val:", "        elif abs(current_rel_val - best_rel_val) < 1e-9:", "break", "R-TIES"),
     ("n_value_lists_renamed", _D, ["variables_msg", "values_msg"], ["sep_vars", "sep_vals"], "neutral"),
 ]
